@@ -69,9 +69,17 @@ class NormalizingExperimenter(experimenter.Experimenter):
       trial = vz.Trial(parameters=parameters)
       exptr.evaluate([trial])
       measurement = trial.final_measurement
+      if trial.infeasible:
+        # Infeasible samples carry no (or NaN) objective values.
+        continue
       for name, metric in (measurement.metrics if measurement else {}).items():
         metrics[name].append(metric.value)
 
+    if not metrics:
+      raise ValueError(
+          'No feasible normalization sample: cannot estimate mean and std of'
+          f' {exptr}.'
+      )
     self._norm_means: Dict[str, float] = {}
     self._norm_stds: Dict[str, float] = {}
     for name, grid_values in metrics.items():
@@ -84,7 +92,7 @@ class NormalizingExperimenter(experimenter.Experimenter):
   def evaluate(self, suggestions: Sequence[vz.Trial]):
     self._exptr.evaluate(suggestions)
     for suggestion in suggestions:
-      if suggestion.final_measurement is None:
+      if suggestion.final_measurement is None or suggestion.infeasible:
         continue
       normalized_metrics: Dict[str, vz.Metric] = {}
       for name, metric in suggestion.final_measurement.metrics.items():
@@ -138,4 +146,11 @@ class HyperCubeExperimenter(experimenter.Experimenter):
     self._exptr.evaluate(orig_suggestions)
 
     for suggestion, orig_suggestion in zip(suggestions, orig_suggestions):
-      suggestion.final_measurement = orig_suggestion.final_measurement
+      if orig_suggestion.infeasible:
+        # Keep the infeasibility mark of the wrapped experimenter.
+        suggestion.complete(
+            orig_suggestion.final_measurement or vz.Measurement(),
+            infeasibility_reason=orig_suggestion.infeasibility_reason,
+        )
+      else:
+        suggestion.final_measurement = orig_suggestion.final_measurement
